@@ -89,3 +89,36 @@ def judge(label, body_kind, outcome, stdout):
     if lines[-1] != 'main: end':
         return 'main did not reach its end'
     return ''
+
+
+def named_cases():
+    """module names that collide with packages or with each other, and deep package nesting; exact stdout expected"""
+    out = []
+    std = {'std.lay': 'print("my std");\nexport let x = 1;\n'}
+    out.append(('user module named std, then std.math', dict(std, **{
+        'main.lay': 'import self.std;\nprint(std.x);\nimport std.math;\nprint(math.abs(-2));\nimport std.math:{abs};\nprint(abs(-3));\n'}),
+        ['my std', '1', '2', '3']))
+    out.append(('std.math, then user module named std, then std.io.fs', dict(std, **{
+        'main.lay': 'import std.math;\nimport self.std as mine;\nprint(mine.x);\nprint(math.abs(-2));\nimport std.io.fs;\nprint("fs ok");\n'}),
+        ['my std', '1', '2', 'fs ok']))
+    out.append(('user module named math inside a package named std', {
+        'std.lay': 'print("pkg std");\nexport let p = 0;\n', 'std/math.lay': 'print("my math");\nexport let pi = 3;\n',
+        'main.lay': 'import self.std.math as mine;\nprint(mine.pi);\nimport std.math;\nprint(math.abs(-4));\n'},
+        ['pkg std', 'my math', '3', '4']))
+    deep = {'a.lay': 'print("a body");\nexport let av = 1;\n', 'a/b.lay': 'print("b body");\nexport let bv = 2;\n',
+            'a/b/c.lay': 'print("c body");\nexport let cv = 3;\n', 'a/b/c/d.lay': 'print("d body");\nexport let dv = 4;\n'}
+    out.append(('three levels', dict(deep, **{'main.lay': 'import self.a.b.c;\nprint(c.cv);\n'}),
+                ['a body', 'b body', 'c body', '3']))
+    out.append(('four levels after two', dict(deep, **{
+        'main.lay': 'import self.a.b;\nprint(b.bv);\nimport self.a.b.c.d:{dv};\nprint(dv);\nimport self.a;\nprint(a.av);\n'}),
+        ['a body', 'b body', '2', 'c body', 'd body', '4', '1']))
+    out.append(('same module name in two packages', {
+        'm.lay': 'print("root m");\nexport let v = "root";\n', 'p.lay': 'print("p");\nexport let pv = 1;\n',
+        'p/m.lay': 'print("p.m");\nexport let v = "nested";\n',
+        'main.lay': 'import self.m;\nimport self.p.m as pm;\nprint(m.v, pm.v);\nimport self.m as again;\nprint(again.v);\n'},
+        ['root m', 'p', 'p.m', 'root nested', 'root']))
+    out.append(('module named like its package', {
+        'q.lay': 'print("q");\nexport let v = 1;\n', 'q/q.lay': 'print("q.q");\nexport let v = 2;\n',
+        'main.lay': 'import self.q.q as inner;\nimport self.q;\nprint(q.v, inner.v);\n'},
+        ['q', 'q.q', '1 2']))
+    return out
